@@ -8,11 +8,11 @@ ID = "C17"
 RULE = ("E-FULL: every day of the tier's year set (quick: 1900, 1999-2004, 2100, 2200; thorough: every day 1900-2200) at 3 "
         "instants x 7 units x floor/ceil/round/offset(k in {0,1,2,7,31,400}); every hour of 2000, 2021, 2100 (thorough: 10 years incl. 1900, 1969, 1970, 2038, 2200) for "
         "second/minute/hour; thorough: every k in 0..400 from each day of 12 years (1900 ... 2199). E-INPUT: range(t0,t1,dt) "
-        "for start instants around every month end/week boundary of 2019-2020 x 6 spans x dt 1..12, 13, 18, 25, 30, 36, 53, 61 x 7 units (for dt 1 and 5 also through the plural aliases d3_time['days'] ...); thorough: three enumerations of more than 10^6 boundaries. Oracle R-CAL "
+        "for start instants around every month end/week boundary of 2019-2020 x 6 spans x dt 1..12, 13, 18, 25, 30, 36, 53, 61 x 7 units (for dt 1 and 5 also through the plural aliases d3_time['days'] ...); steps 100..3600 over four cycles of the step; floor/ceil/round/range on every day of one year under three process-wide settings (calendar.setfirstweekday, a 4-digit decimal context, DEBUG logging); thorough: three enumerations of more than 10^6 boundaries. Oracle R-CAL "
         "(datetime/timedelta/calendar). Non-trivial: the instant is not itself a boundary / the range is non-empty.")
 ASSUMPTIONS = ["for the week unit with dt>1 only numbering-agnostic periodicity inside a year is demanded (the statement does not fix a week numbering)",
                "process time zone is UTC here; C18 owns the zone dimension"]
-REQUIRED_COUNTERS = ("point_ops", "range_ops", "month_end_days", "leap_days")
+REQUIRED_COUNTERS = ("point_ops", "range_ops", "month_end_days", "leap_days", "range_ops_with_step_100_or_more", "ops_under_ambient_setting")
 
 TODS = (timedelta(0), timedelta(hours=13, minutes=30, seconds=15, milliseconds=250),
         timedelta(hours=23, minutes=59, seconds=59, milliseconds=999))
@@ -21,6 +21,10 @@ NOMINAL = {"second": timedelta(seconds=1), "minute": timedelta(minutes=1), "hour
            "day": timedelta(days=1), "week": timedelta(days=7), "month": timedelta(days=30), "year": timedelta(days=365)}
 SPANS = (0, 1, 2.5, 13, 40, 130)
 DTS = tuple(range(1, 13)) + (13, 18, 25, 30, 36, 53, 61)  # also steps larger than one cycle of the unit number
+
+
+BIG_DTS = (100, 110, 120, 144, 150, 180, 240, 365, 3600)
+AMBIENT = ("calendar-firstweekday", "decimal-context", "debug-logging")
 
 
 def bounds(tier, seed):
@@ -59,6 +63,10 @@ def plan(tier, seed):
     n = 16
     for r in range(n):
         shards.append({"kind": "ranges", "mod": n, "rem": r})
+    for u in cal.UNITS:  # steps of 100 and more (several cycles of the unit number)
+        shards.append({"kind": "bigstep", "unit": u})
+    for k in AMBIENT:  # the same operations under process-wide settings an application may have chosen
+        shards.append({"kind": "ambient", "setting": k, "year": 2024 if tier == "quick" else 2000 + seed % 30})
     if tier == "thorough":  # one enumeration of more than a million boundaries per fine unit
         shards.append({"kind": "long", "unit": "second", "days": 13, "dt": 1})
         shards.append({"kind": "long", "unit": "second", "days": 25, "dt": 2})
@@ -202,6 +210,56 @@ def run_shard(shard):
         if bad:
             acc.violation({"op": "range", "unit": u, "t0": t0, "t1": t1, "dt": shard["dt"]}, bad[0], bad[1], order=(2, 0, 0, 0))
         acc.sample({"op": "range", "unit": u, "t0": t0, "t1": t1, "dt": shard["dt"]})
+    elif kind == "bigstep":
+        u = shard["unit"]
+        starts = start_instants((2020,))[::9]
+        for t0 in starts:
+            acc.states += 1
+            for dt in BIG_DTS:
+                # long enough for four cycles of the step; the year unit is limited by the calendar's last year
+                n = 4 * dt + 7 if u != "year" else min(4 * dt + 7, 7900)
+                t1 = cal.step(u, cal.floor(u, t0), n)
+                acc.evals += 1
+                acc.trans += 1
+                acc.counters["range_ops"] += 1
+                acc.counters["range_ops_with_step_100_or_more"] += 1
+                acc.nontriv += 1
+                bad = range_case(d3_time[u], u, t0, t1, dt)
+                if bad:
+                    acc.violation({"op": "range", "unit": u, "t0": t0, "t1": t1, "dt": dt}, bad[0], bad[1],
+                                  order=(3, cal.UNITS.index(u), dt, cal.ms_of(t0)))
+        acc.sample({"op": "range", "unit": u, "t0": t0, "t1": t1, "dt": dt})
+    elif kind == "ambient":
+        from mc.ambient import setting
+        day, end = datetime(shard["year"], 1, 1), datetime(shard["year"], 12, 31)
+        k = 0
+        while day <= end:
+            acc.states += 1
+            t = day + TODS[1]
+            with setting(shard["setting"]):
+                for u in cal.UNITS:
+                    for op in ("floor", "ceil", "round"):
+                        bad = point_case(d3_time[u], u, op, t)
+                        acc.evals += 1
+                        acc.trans += 1
+                        acc.counters["ops_under_ambient_setting"] += 1
+                        if bad:
+                            acc.violation({"op": op, "unit": u, "t": t, "k": None, "ambient": shard["setting"]},
+                                          bad[0] + ":" + shard["setting"], bad[1] + " (under " + shard["setting"] + ")",
+                                          order=(4, cal.UNITS.index(u), 0, cal.ms_of(t)))
+                    if k % 7 == 0:
+                        for dt in (1, 2):
+                            bad = range_case(d3_time[u], u, t, t + 9 * NOMINAL[u], dt, d3_time.get(u + "s"))
+                            acc.evals += 1
+                            acc.trans += 1
+                            acc.counters["ops_under_ambient_setting"] += 1
+                            if bad:
+                                acc.violation({"op": "range", "unit": u, "t0": t, "t1": t + 9 * NOMINAL[u], "dt": dt,
+                                               "ambient": shard["setting"]}, bad[0] + ":" + shard["setting"],
+                                              bad[1] + " (under " + shard["setting"] + ")", order=(4, cal.UNITS.index(u), dt, cal.ms_of(t)))
+            k += 1
+            day += timedelta(days=1)
+        acc.sample({"op": "floor", "unit": "week", "t": end, "k": None, "ambient": shard["setting"]})
     elif kind == "hours":
         y, q = shard["y"], shard["q"]
         t = datetime(y, 1 + 3 * q, 1)
@@ -243,6 +301,11 @@ def run_shard(shard):
 def replay(case):
     from labella.d3_time import d3_time
     u = case["unit"]
+    if case.get("ambient"):
+        from mc.ambient import setting
+        with setting(case["ambient"]):
+            bad = replay({k: v for k, v in case.items() if k != "ambient"})
+        return (bad[0] + ":" + case["ambient"], bad[1]) if bad else None
     if case["op"] == "range":
         return range_case(d3_time[u], u, case["t0"], case["t1"], case["dt"], d3_time.get(u + "s"))
     return point_case(d3_time[u], u, case["op"], case["t"], case.get("k"))
